@@ -158,8 +158,14 @@ def resolve(res, fexpr_name_in_enclosing_scope=False, catch_var_stays=False):
             if a['identifier'] is not None:
                 out.n_named_fexpr += 1
                 if fexpr_name_in_enclosing_scope:
-                    scope.names.add(a['identifier'].attrs['value'])
-                    ident(a['identifier'], 'decl', scope)
+                    # the deviating implementation forwards every declaration made in a catch block,
+                    # other than the catch parameter itself, to the scope around the catch clause
+                    nm = a['identifier'].attrs['value']
+                    tgt = scope
+                    while tgt.kind == 'catch' and nm not in tgt.names:
+                        tgt = tgt.parent
+                    tgt.names.add(nm)
+                    ident(a['identifier'], 'decl', tgt)
                 else:
                     inner = new_scope('fexpr', scope)
                     inner.names.add(a['identifier'].attrs['value'])
